@@ -310,6 +310,10 @@ class WSStream:
     async def _handle_events(self) -> None:
         for event in self.connection.events():
             if isinstance(event, Message):
+                if self.connection.state == ConnectionState.LOCAL_CLOSING:
+                    # A close frame has been sent (e.g. message too
+                    # big), discard any further messages.
+                    continue
                 try:
                     self.buffer.extend(event)
                 except FrameTooLargeError:
